@@ -31,6 +31,15 @@ type Violation struct {
 	Prefix  []int64  `json:"prefix"`
 }
 
+// Witness is a concrete input vector reaching a vreach label (vacuity witness,
+// replayed natively to validate the translation).
+type Witness struct {
+	Harness string   `json:"harness"`
+	Label   string   `json:"label"`
+	Values  []uint64 `json:"values"`
+	Clean   bool     `json:"clean"` // no violation was recorded on the path before this point
+}
+
 type Obligation struct {
 	Label   string `json:"label"`
 	Verdict string `json:"verdict"` // unsat | sat | unknown | trivial
@@ -55,6 +64,7 @@ type PathResult struct {
 	Merged       int            `json:"merged"`
 	Inconclusive []string       `json:"inconclusive,omitempty"`
 	Externals    []string       `json:"externals,omitempty"`
+	Witnesses    []Witness      `json:"witnesses,omitempty"`
 }
 
 type Engine struct {
@@ -88,6 +98,7 @@ type Engine struct {
 	verbose  bool
 	callDepth int
 	accOn     bool
+	wantWitness bool
 	panicAcc  T
 	panicMsgs []string
 }
